@@ -165,6 +165,20 @@ pub fn cases(ctx: &Ctx) -> Vec<Case> {
             v.push(Case { prog: p, faults: faults_for_all_chunks(36, &[0, -1]) });
         }
     }
+    // a file already ended, then content blocks of another file in later chunks (a flipped id there
+    // names the ended file)
+    for layers in [1u8] {
+        let p = Program {
+            layers,
+            level: 1,
+            nrecip: 1,
+            files: vec![FileSpec { name: NameKind::Plain(0), data: DataKind::Text }, FileSpec { name: NameKind::Plain(1), data: DataKind::Random }, FileSpec { name: NameKind::Plain(2), data: DataKind::Text }],
+            ops: vec![Op::Add(0, Sz::lit(50)), Op::Start(1), Op::Start(2), Op::Append(1, Sz::new(0, 1, 100)), Op::Append(2, Sz::lit(30)), Op::Append(1, Sz::lit(100)), Op::End(2), Op::Append(1, Sz::new(0, 1, 0)), Op::Append(1, Sz::lit(7)), Op::End(1), Op::Finalize],
+            seed: ctx.seed ^ 0x1DF1,
+        };
+        let n = est_chunks(&p);
+        v.push(Case { prog: p, faults: faults_for_all_chunks(n, &[0]) });
+    }
     v
 }
 
@@ -261,7 +275,21 @@ pub fn run_case(ctx: &mut Ctx, c: &Case) {
     let nch = chunks.len();
     let mut rng = Rng::derive(ctx.seed, &[0xC04F, p.fingerprint()]);
     ctx.sample(|| json!({"prog": p, "chunks": nch, "faults": c.faults.iter().take(4).collect::<Vec<_>>()}));
-    for f in &c.faults {
+    // targeted alterations (not when replaying a single fault): one bit of the file id in the header of
+    // every content block lying in a chunk >= 1, so that the block names another (possibly ended) file
+    let mut faults = c.faults.clone();
+    if c.faults.len() > 1 && d.comp.is_none() && p.files.len() >= 2 {
+        for b in d.walk.blocks.iter().filter(|b| b.kind == fmt::T_CONTENT) {
+            let at = b.off as u64 + 1;
+            if at / k.chunk >= 1 && faults.len() < c.faults.len() + 48 {
+                for bit in [0u8, 1] {
+                    faults.push(Fault { kind: FaultKind::FlipData, chunk: (at / k.chunk) as i64, off: (at % k.chunk) as i64, bit });
+                }
+                ctx.count("musthit:flip_in_the_file_id_of_a_content_block");
+            }
+        }
+    }
+    for f in &faults {
         if !ctx.time_left() {
             return;
         }
@@ -347,6 +375,10 @@ pub fn run_case(ctx: &mut Ctx, c: &Case) {
             Err((loc, msg)) => {
                 ctx.count("outcome:unauth:panic");
                 ctx.violation("C08", &format!("panic:{loc}:{}", crate::ctx::msg_class(&msg)), scen(), json!({"panic": msg, "during": "unauthenticated repair of a corrupted archive"}));
+                if ci > 0 && auth_files.values().any(|f| !f.data.is_empty()) {
+                    // nothing comes out of the unauthenticated mode where the default mode recovered data
+                    ctx.violation("C04", &format!("unauth-less-than-auth:{sigsuffix}"), scen(), json!({"unauth_panic": msg}));
+                }
             }
             Ok(Err(e)) => {
                 ctx.count("outcome:unauth:error");
